@@ -6,6 +6,7 @@ import IvpModel.Driver.PyDrv
 import IvpModel.Driver.RadauDrv
 import IvpModel.Driver.BdfDrv
 import IvpModel.Driver.ContDrv
+import IvpModel.Driver.BdfNumDrv
 
 def main (args : List String) : IO UInt32 := do
   let stdin ← IO.getStdin
@@ -16,6 +17,9 @@ def main (args : List String) : IO UInt32 := do
       return 0
   | ["lu"] =>
       for o in Drv.Lu.run lines do IO.println o
+      return 0
+  | ["bdfnum"] =>
+      for o in Drv.BdfN.run lines do IO.println o
       return 0
   | ["cont"] =>
       for o in Drv.Cont.run lines do IO.println o
